@@ -2,7 +2,7 @@ SPECIFICATION ESpecAll
 CONSTANTS
   Keys = {"k1", "k2"}
   Algs = {"ES256", "EdDSA"}
-  ClaimIds = {"cA", "cB", "cBad"}
+  ClaimIds = {"cA", "cB", "cC", "cBad"}
   InvalidIds = {"cBad"}
 INVARIANTS Binding NoForgery GoodSignAlwaysSucceeds TwoSignsTwoTokens
 PROPERTIES GoodSignVerifies EveryStepPost
